@@ -77,7 +77,11 @@ StepNext(e) ==
       \* the legal schedule is the one where the completion was consumed by the same call.
       doneOnReturn == t0.out.k = "waiting" /\ t0.cmd.st = "run" /\ t0.cmd.arg.t = "n" /\ o.out.k # "waiting"
                       /\ pre.cmd.st = "none"
-      t1 == IF doneOnReturn THEN Big(P, t0, InDone(0, FALSE)) ELSE t0
+      \* (what the dispatching call had written and logged before it reached the wait is part of the same call)
+      t1 == IF doneOnReturn
+            THEN LET u == Big(P, t0, InDone(0, FALSE)) IN
+                 [u EXCEPT !.writes = t0.writes \o @, !.fcalls = t0.fcalls \o @, !.ccalls = t0.ccalls \o @]
+            ELSE t0
       \* a plain line with a line condition: the other reading (a false condition skips the line) is
       \* accepted as well; the machine continues in whichever state explains the observation
       tSkip == [Big(P, [pre EXCEPT !.lcmode = "skip"], e.in) EXCEPT !.lcmode = "show"]
